@@ -136,6 +136,24 @@ Theorem C07_spec_bounds :
 Proof. exact prep_top_bounds. Qed.
 Print Assumptions C07_spec_bounds.
 
+(** greedy: without a stop parser a repetition ends only because the upper bound is reached or because one
+    more unit (separator then item) does not match what follows *)
+Theorem C07_spec_greedy :
+  forall unitp n lo hi vals s v s',
+  prep unitp None n lo hi vals s = Some (POk v s') ->
+  exists l, v = VList l /\ (lt_opt (length l) hi = false \/ unitp s' = Some PFail).
+Proof. exact prep_maximal. Qed.
+Print Assumptions C07_spec_greedy.
+
+(** the until-variants stop, consuming nothing further and without failing, as soon as the stop parser
+    succeeds at an item boundary *)
+Theorem C07_spec_until_stops :
+  forall unitp stopp n lo hi vals s, stop_hit stopp s = Some true ->
+  (length vals <? lo) || lt_opt (length vals) hi = true ->
+  prep unitp stopp (S n) lo hi vals s = Some (POk (VList vals) s).
+Proof. exact prep_stops. Qed.
+Print Assumptions C07_spec_until_stops.
+
 (** every specification result is a suffix-length of the input: repetitions only move forwards, and a
     repetition with a lower bound of at least one over a non-nullable item consumes *)
 Theorem C07_spec_consumes :
